@@ -274,8 +274,6 @@ def is_word(c):
 HOSTCH = set("abcdefghijklmnopqrstuvwxyzABCDEFGHIJKLMNOPQRSTUVWXYZ0123456789_.-")
 HEX = set("0123456789abcdefABCDEF")
 SECRET = set("abcdefghijklmnopqrstuvwxyzABCDEFGHIJKLMNOPQRSTUVWXYZ0123456789_!@#$%^&*()+=/-")
-PW_SEPS = sorted([":", ": ", " : ", " :", "=", " = ", "= ", " =", ':"', ': "', '="', ' = "', '= "', " --md5 ",
-                  " ", "  ", "\t", ":\t"], key=len, reverse=True)
 
 
 def canon_octet(s, first):
@@ -366,34 +364,43 @@ def host_tokens(line, fqdn):
 
 
 def password_secrets(line):
-    """secrets in the accepted notations password<w><sep><secret><end>, read left to right (a key inside
-    the secret of an earlier key is part of that secret)"""
+    """
+    (secret, key start, secret start) for the accepted notations, read left to right (a key inside the
+    secret of an earlier key is part of that secret):  password<w><sep><secret><end>  with
+    sep = blanks? ':' blanks? quotes? blanks?  |  blanks? '='+ blanks? ('"' blanks?)?  |  blanks? '--md5' '5'* blanks?
+        |  blanks
+    secret = maximal run over the secret alphabet, end = any other character or the end of the line.
+    """
+    n = len(line)
+
+    def skip(p, pred):
+        while p < n and pred(line[p]):
+            p += 1
+        return p
+
+    def blank(c):
+        return c.isspace()
+
     out = []
     i = line.find("password")
     while i >= 0:
-        j = i + 8
-        while j < len(line) and (line[j].isascii() and (line[j].isalnum() or line[j] == "_")):
-            j += 1
-        nxt = i + 1
-        for sep in PW_SEPS:
-            if line.startswith(sep, j):
-                k = j + len(sep)
-                e = k
-                while e < len(line) and line[e] in SECRET:
-                    e += 1
-                sec = line[k:e]
-                # the separator must be the whole separator: no blank, quote, ':' or '=' may follow it
-                if sec and sec[0] != "=" and (k >= len(line) or line[k] not in ' \t":'):
-                    out.append((sec, i, k))
-                nxt = max(nxt, e)
-                break
-        else:
-            # no listed separator: whatever secret characters follow belong to this key (group 1 gives back)
-            e = j
-            while e < len(line) and line[e] in SECRET:
-                e += 1
-            nxt = max(nxt, e)
-        i = line.find("password", nxt)
+        j = skip(i + 8, lambda c: c.isascii() and (c.isalnum() or c == "_"))
+        p = skip(j, blank)
+        listed = True
+        if p < n and line[p] == ":":
+            p = skip(skip(skip(p + 1, blank), lambda c: c == '"'), blank)
+        elif p < n and line[p] == "=":
+            p = skip(skip(p, lambda c: c == "="), blank)
+            if p < n and line[p] == '"':
+                p = skip(p + 1, blank)
+        elif line.startswith("--md5", p):
+            p = skip(skip(p + 5, lambda c: c == "5"), blank)
+        elif p == j:
+            listed = False      # no separator: whatever secret characters follow belong to this key (group 1 gives back)
+        e = skip(p, lambda c: c in SECRET)
+        if listed and e > p:
+            out.append((line[p:e], i, p))
+        i = line.find("password", max(i + 1, e))
     return out
 
 
@@ -494,59 +501,82 @@ class Oracle(object):
                         continue
                     if uncovered_occurrence(text, sec, cov) >= 0:
                         # known finding: a stage that runs before Password rewrites text inside the key itself
-                        earlier = [k for k in kws_db if k] if (kws_db and "keyword" not in no_obf) else []
+                        kw_on = bool(kws_db) and "keyword" not in no_obf
+                        earlier = [k for k in kws_db if k] if kw_on else []
                         if self.host_active(cfg, no_obf):
                             earlier.append(cfg["fqdn"].split(".")[0])
-                        fid = FINDING_KW if any(k and overlaps(l, k, k0, k1) for k in earlier) else None
+                        fid = FINDING_KW if ((kw_on and "" in kws_db) or
+                                             any(k and overlaps(l, k, k0, k1) for k in earlier)) else None
                         self.fails.append(("password", "secret %r of line %r occurs in the output %r" % (sec, l, text), fid))
         if not cfg["obfuscate"]:
             return self.fails
+        # Substitution is per line: a token delimited on line i must not survive in the IMAGE of line i.  The image is
+        # known when no line was dropped or when the lines carry markers; otherwise the whole output is searched, and
+        # only for tokens ALL of whose occurrences in the input are delimited ones.
+        M = cleaner_mod.MAX_LINE_LENGTH
+        if call["route"] != "file" and len(out) == len(lines):
+            pairs = [(l[:M], o, False) for l, o in zip(lines, out)]
+        elif case.get("markers"):
+            pairs = []
+            for idx, l in enumerate(lines):
+                img = [o for o in out if (u"\xa7%d\xa7" % idx) in o]
+                if len(img) == 1:
+                    pairs.append((l[:M], img[0], False))
+        else:
+            pairs = [(l[:M], text, True) for l in lines]
+
+        def everywhere_delimited(t, count_tokens):
+            return sum(l[:M].count(t) for l in lines) == sum(count_tokens(l[:M]).count(t) for l in lines)
+
+        def leaks(t, o, strict, count_tokens):
+            if strict and not everywhere_delimited(t, count_tokens):
+                return False
+            return uncovered_occurrence(o, t, covered_positions(o, subs)) >= 0
         # -- IPv4
         if "ip" not in no_obf:
             issued = set(v for _, v in r.tables["ip"])
-            out_toks = set(t for l in out for t in ipv4_tokens(l))
-            for l in lines:
-                for t in ipv4_tokens(l[:cleaner_mod.MAX_LINE_LENGTH]):
+            for l, o, strict in pairs:
+                for t in set(ipv4_tokens(l)):
                     if t == "127.0.0.1" or t in issued or in_sub(t):
                         continue
-                    if t in out_toks and uncovered_occurrence(text, t, cov) >= 0:
-                        self.fails.append(("ipv4", "address %r of line %r occurs in the output %r" % (t, l, text), None))
+                    if t in ipv4_tokens(o) and leaks(t, o, strict, ipv4_tokens):
+                        self.fails.append(("ipv4", "address %r of line %r occurs in the output %r" % (t, l, o), None))
         # -- host names
         if self.host_active(cfg, no_obf):
             fqdn = cfg["fqdn"]
             short = fqdn.split(".")[0]
-            toks = set()
-            for l in lines:
-                l = l[:cleaner_mod.MAX_LINE_LENGTH]
-                toks.update(host_tokens(l, fqdn))
-                if short and short in l:
-                    toks.add(short)
-                if fqdn in l:
-                    toks.add(fqdn)
-            for t in toks:
-                if in_sub(t):
-                    continue
-                if uncovered_occurrence(text, t, cov) >= 0:
+            for t in (short, fqdn):          # the system's own names: any occurrence
+                if t and not in_sub(t) and any(t in l[:M] for l in lines) and uncovered_occurrence(text, t, cov) >= 0:
                     self.fails.append(("host", "host name %r occurs in the output %r" % (t, text), None))
+            for l, o, strict in pairs:       # other hosts of the domain: delimited occurrences
+                for t in set(host_tokens(l, fqdn)):
+                    if in_sub(t):
+                        continue
+                    if leaks(t, o, strict, lambda x: host_tokens(x, fqdn)):
+                        self.fails.append(("host", "host name %r of line %r occurs in the output %r" % (t, l, o), None))
         # -- MAC
         if cfg["mac"] and "mac" not in no_obf:
             issued = set(v for _, v in r.tables["mac"])
-            occ = {}
-            for l in lines:
-                l = l[:cleaner_mod.MAX_LINE_LENGTH]
+            mtoks = lambda x: [t for t, _ in mac_tokens(x)]
+            for l, o, strict in pairs:
                 per = {}
                 for t, i in mac_tokens(l):
                     near = (i > 0 and l[i - 1] in ":-") or (i + 17 < len(l) and l[i + 17] in ":-")
                     per.setdefault(t, []).append(near)
-                for t, nears in per.items():     # a line on which every occurrence has a ':' / '-' neighbour
-                    occ.setdefault(t, []).append(all(nears))
-            out_toks = set(t for l in out for t, _ in mac_tokens(l))
-            for t, nears in occ.items():
-                if mac_exempt(t) or t in issued or in_sub(t):
-                    continue
-                if t in out_toks and uncovered_occurrence(text, t, cov) >= 0:
-                    fid = FINDING_MAC if any(nears) else None
-                    self.fails.append(("mac", "MAC address %r occurs in the output %r" % (t, text), fid))
+                for t, nears in per.items():
+                    if mac_exempt(t) or t in issued or in_sub(t):
+                        continue
+                    if t in mtoks(o) and leaks(t, o, strict, mtoks):
+                        # known finding mac-after-colon: the address has an occurrence with a ':' / '-' neighbour on the
+                        # input line (without alignment: on some input line) and every occurrence that survived has one
+                        # (another occurrence of the same line may have been rewritten by an earlier stage)
+                        near_in = any(nears) if not strict else any(
+                            (i > 0 and x[i - 1] in ":-") or (i + 17 < len(x) and x[i + 17] in ":-")
+                            for x in lines for tt, i in mac_tokens(x[:M]) if tt == t)
+                        near_out = all((i > 0 and o[i - 1] in ":-") or (i + 17 < len(o) and o[i + 17] in ":-")
+                                       for tt, i in mac_tokens(o) if tt == t)
+                        self.fails.append(("mac", "MAC address %r of line %r occurs in the output %r" % (t, l, o),
+                                           FINDING_MAC if (near_in and near_out) else None))
         return self.fails
 
     @staticmethod
@@ -664,7 +694,8 @@ def g_line(rng, cfg, kws):
     out = ""
     for i, p in enumerate(parts):
         if i:
-            out += rng.choice([" ", " ", " ", " ", rng.choice(PUNCT), "", ", "])
+            out += rng.choice([" ", " ", " ", " ", rng.choice(PUNCT), "", ", ", rng.choice(PUNCT) + " ", " " + rng.choice(PUNCT),
+                               chr(rng.randint(33, 126))])
         out += p
     if rng.random() < 0.1:
         out = rng.choice(PUNCT) + out
@@ -748,8 +779,7 @@ def g_case(rng, width_ok=True):
         lines = [l.encode("ascii", "replace").decode("ascii").replace("\r", " ") for l in lines]
         markers = False
         lines = [l + "\n" for l in lines[:-1]] + [lines[-1] + rng.choice(["\n", "\n", ""])]
-        if not "".join(lines):
-            lines = ["x\n"]
+        lines = [l for l in lines if l] or ["x\n"]        # what readlines() will return
     elif route == "provider":
         lines = [l.replace("\n", " ") for l in lines]
     elif rng.random() < 0.3:
@@ -780,7 +810,9 @@ def recogniser_streams(chk, n):
     lines, impl, cases = [], [], []
 
     def gen(alph, k):
-        return "".join(rng.choice(alph) for _ in range(rng.randint(0, k)))
+        # the alphabet of the stream, and now and then any printable ASCII character (neighbour classes of look-arounds)
+        return "".join(rng.choice(alph) if rng.random() < 0.85 else chr(rng.randint(32, 126))
+                       for _ in range(rng.randint(0, k)))
     ip = IPv4()
     a_ip = ["0", "1", "2", "5", "25", "255", "256", "9", ".", ".", ".", "1.2.3.4", "10.0.0.1", " ", "x", u"\xe9", u"\xa4",
             ":", "-", "_", "/", "127.0.0.1", "249", "199", "01"]
@@ -909,7 +941,8 @@ def run_cases(chk, cases, stream):
     impl = [r.out for r in runs_]
     chk.compare(stream, cases, impl, model)
     for case, r, m in zip(cases, runs_, model):
-        changed = r.lines_out is None or [l for l in r.lines_out] != list(case["lines"])
+        sepr = "" if case["call"]["route"] == "file" else "\x00"
+        changed = r.lines_out is None or sepr.join(r.lines_out) != sepr.join(case["lines"])
         chk.case(json.dumps(case, sort_keys=True), nontrivial=changed)
         for t in classify(case, r):
             chk.count(t)
@@ -924,8 +957,8 @@ OUTSIDE_NOTATIONS = ["password='hunter2'", "Password=hunter2", "password={hunter
 
 def run(chk):
     quick = chk.tier == "quick"
-    n_cases = 2600 if quick else 120000
-    n_rec = 1500 if quick else 60000
+    n_cases = 6000 if quick else 60000
+    n_rec = 3000 if quick else 30000
     chk.rule = ("a case = Cleaner configuration (all combinations of obfuscate / hostname / mac / ipv6 switches, keyword list, "
                 "plain or regular-expression exclusion list, system host name) x call (no_obfuscate subset, no_redact, allow list, "
                 "width mode; entry point clean_content list / single string, clean_file, DatasourceProvider.write) x 1-6 lines "
@@ -958,7 +991,7 @@ def run(chk):
         c = g_case(chk.rng)
         if in_domain(c):
             cases.append(c)
-    B = 1300
+    B = 1500
     for i in range(0, len(cases), B):
         runs_, model = run_cases(chk, cases[i:i + B], "clean")
         if i == 0:
@@ -970,7 +1003,7 @@ def run(chk):
     saved = cleaner_mod.MAX_LINE_LENGTH
     try:
         tc = []
-        while len(tc) < (60 if quick else 2000):
+        while len(tc) < (200 if quick else 2000):
             c = g_case(chk.rng)
             if in_domain(c) and c["call"]["route"] in ("content", "single"):
                 tc.append(c)
@@ -985,7 +1018,82 @@ def run(chk):
         {"line": l, "cleaned": pw.parse_line(l), "masked": "hunter2" not in pw.parse_line(l)} for l in OUTSIDE_NOTATIONS]
 
 
+def replay_one(case):
+    """re-run one cleaning case: 1 if the oracle fails or model and implementation differ"""
+    scratch = tempfile.mkdtemp(prefix="c08-")
+    try:
+        r = run_impl(case, scratch)
+    finally:
+        shutil.rmtree(scratch, ignore_errors=True)
+    print("impl :", r.out.split("\t")[0], r.lines_out)
+    differs = False
+    try:
+        m = canon_model(case, run_driver("C08", [proto_line(case, r)])[0])
+        f = m.split("\t")
+        differs = m != r.out
+        print("model:", f[0], [dec(x[1:]) if x.startswith("=") else x for x in f[1:]], "  <-- differs" if differs else "")
+    except Exception as e:
+        print("model: driver failed", e)
+    fails = Oracle(case, r).check()
+    for clause, text, fid in fails:
+        print("ORACLE %s: %s%s" % (clause, text, "  [known finding %s]" % fid if fid else ""))
+    return bool(fails), differs
+
+
+REC_OPS = {"ipv4": 1, "mac": 1, "host": 2, "pw": 1, "repl": 3, "rx": 2, "cls": 1}
+
+
+def replay_recogniser(c):
+    """one case of a recogniser stream: (name, args...) — implementation against model"""
+    name = c[0]
+    if name == "ipv4":
+        impl = items([m[0] for m in re.findall(IPv4().pattern, c[1])])
+        line = "ipv4\t" + enc(c[1])
+    elif name == "mac":
+        mac = Mac()
+        f = re.findall(mac.pattern, c[1], re.I)
+        impl = ",".join(("!" if any(re.search(i, m[0], re.I) for i in mac._ignore_list) else "=") + enc(m[0]) for m in f) or "-"
+        line = "mac\t" + enc(c[1])
+    elif name == "host":
+        h = Hostname(c[1])
+        if c[2]:
+            h.parse_line(c[2])
+        impl = items(sorted(set(m["original"] for m in h.mapping()) - {c[1]}))
+        line = "host\t%s\t%s" % (enc(c[1].split(".", 1)[1]), enc(c[2]))
+    elif name == "pw":
+        impl = enc(Password().parse_line(c[1])) if c[1] else "-"
+        line = "pw\t" + enc(c[1])
+    elif name == "repl":
+        impl = enc(c[3].replace(c[1], c[2]))
+        line = "repl\t%s\t%s\t%s" % (enc(c[1]), enc(c[2]), enc(c[3]))
+    else:
+        print("no single-case replay for stream", name)
+        return False
+    m = run_driver("C08", [line])[0]
+    if name == "host":
+        m = items(sorted(set(dec(x[1:]) for x in m.split(",") if x != "-") - {c[1]}))
+    print("%s %r\n  impl : %s\n  model: %s%s" % (name, c[1:], impl, m, "" if impl == m else "   <-- differs"))
+    return impl != m
+
+
 def replay(data):
+    if data.get("kind") == "broken-tie":
+        # no failing input was found: re-run the first disagreeing case of every broken stream
+        bad = False
+        for b in data.get("broken", []):
+            print("broken:", b["what"], "-", b["detail"][:300])
+            first = b.get("case") or {}
+            c = first.get("case") if isinstance(first, dict) else None
+            if isinstance(c, dict) and "cfg" in c:
+                print("replaying", json.dumps(c, ensure_ascii=False)[:3000])
+                f, d = replay_one(c)
+                bad = bad or f or d
+            elif isinstance(c, list) and c and c[0] in REC_OPS:
+                bad = replay_recogniser(c) or bad
+            else:
+                bad = True      # a proof obligation does not check: nothing to re-run
+        print("the tie is still broken (no input on which the property itself fails was found)" if bad else "the tie checks again on the recorded case")
+        return 1 if bad else 0
     c = data["case"]
     print("replaying", json.dumps(c, ensure_ascii=False)[:3000])
     if c.get("op") == "rx":
@@ -996,22 +1104,6 @@ def replay(data):
         print("pattern %r line %r: implementation %s, the pattern %s" % (rx_text(rx), s, "drops" if got is None else "keeps", "matches" if want else "does not match"))
         bad = (got is None) != want
     else:
-        case = c["case"] if "case" in c else c
-        scratch = tempfile.mkdtemp(prefix="c08-")
-        try:
-            r = run_impl(case, scratch)
-        finally:
-            shutil.rmtree(scratch, ignore_errors=True)
-        print("impl :", r.out.split("\t")[0], r.lines_out)
-        try:
-            m = canon_model(case, run_driver("C08", [proto_line(case, r)])[0])
-            f = m.split("\t")
-            print("model:", f[0], [dec(x[1:]) if x.startswith("=") else x for x in f[1:]], "" if m == r.out else "  <-- differs")
-        except Exception as e:
-            print("model: driver failed", e)
-        fails = Oracle(case, r).check()
-        for clause, text, fid in fails:
-            print("ORACLE %s: %s%s" % (clause, text, "  [known finding %s]" % fid if fid else ""))
-        bad = bool(fails)
+        bad, _ = replay_one(c["case"] if "case" in c else c)
     print("property violated on this input" if bad else "property holds on this input")
     return 1 if bad else 0
